@@ -311,6 +311,17 @@ _CT = {
 }
 
 
+_LIBS = []            # every Lib created in this process (a worker has one or two)
+SHADOW_SEED = None    # set by common.pmap in the worker before the item runs: the shadow log is on for every Lib created afterwards
+
+
+def shadow_finish(st):
+    """replay the shadow logs of all libraries of this worker into its Stats (called by common.pmap after the item's own work)"""
+    for L in _LIBS:
+        if L._shadow is not None:
+            L.shadow_check(st)
+
+
 class Lib:
     """(value, err) = lib.call('CS_Total', 26, 10.0);  err is None or (code, message)."""
 
@@ -336,17 +347,76 @@ class Lib:
         self._free = self.dll.xrl_error_free
         self._free.argtypes = [c_void_p]
         self._free.restype = None
+        # queries that return a plain number and take an error slot: the ones the shadow log may ask again (nothing that builds or mutates objects)
+        self._pure_numeric = {n for n, p in headers.protos.items() if n in self.fn and p.get("has_err") and p["ret"] in ("double", "int")
+                              and n not in ("Crystal_ReadFile", "Crystal_AddCrystal", "Atomic_Factors")}
+        _LIBS.append(self)
+        if SHADOW_SEED is not None:
+            self.shadow_start(SHADOW_SEED + len(_LIBS))
+
+    _shadow = None
 
     def call(self, name, *args):
         f = self.fn[name]
         slot = c_void_p(None)
         v = f(*args, byref(slot))
+        err = None
         if slot.value:
             e = ctypes.cast(slot, POINTER(XrlError)).contents
             err = (e.code, e.message)
             self._free(slot)
-            return v, err
-        return v, None
+        if self._shadow is not None and name in self._pure_numeric:
+            self._record(name, args, v, err is None)
+        return v, err
+
+    # ---- shadow log: what the check asked during its own work is asked again afterwards in another order, twice in a row and without an error
+    #      slot; a pure function answers the same.  (Reaches what a once-per-cell enumeration with a fresh slot cannot: memoisation with a stale
+    #      key, tables rewritten by an earlier call, failure detection that depends on the caller's slot.)
+    def shadow_start(self, seed, cap=30000):
+        import random
+        self._shadow, self._shadow_n, self._shadow_cap, self._shadow_rng = [], 0, cap, random.Random(seed)
+
+    def _record(self, name, args, v, ok):
+        for a in args:
+            if not (a is None or isinstance(a, (int, float, bytes))):
+                return
+        self._shadow_n += 1
+        if len(self._shadow) < self._shadow_cap:
+            self._shadow.append((name, args, v, ok))
+        else:
+            k = self._shadow_rng.randrange(self._shadow_n)      # reservoir sampling: every recorded call equally likely to be kept
+            if k < self._shadow_cap:
+                self._shadow[k] = (name, args, v, ok)
+
+    def shadow_check(self, st, case_extra=None):
+        log, rng = self._shadow or [], getattr(self, "_shadow_rng", None)
+        self._shadow = None
+        if not log:
+            return
+        order = list(range(len(log)))
+        rng.shuffle(order)
+        same = lambda a, b: a == b or (a != a and b != b)
+        prev = None
+        for i in order:
+            name, args, v, ok = log[i]
+            st.ev()
+            shown = [a.decode("latin-1") if isinstance(a, bytes) else a for a in args]
+            case = dict(case_extra or {}, fn=name, args=shown, previous_call=prev)
+            v2, e2 = self.call(name, *args)
+            if not same(v2, v) or (e2 is None) != ok:
+                st.violation("order-dependence:" + name, case, dict(value=v, error=not ok), dict(value=v2, error=e2))
+                break
+            if rng.random() < 0.5:
+                v3, e3 = self.call(name, *args)          # the same question twice in a row
+                if not same(v3, v) or (e3 is None) != ok:
+                    st.violation("repeat-dependence:" + name, case, dict(value=v, error=not ok), dict(value=v3, error=e3))
+                    break
+            v4 = self.noslot(name, *args)
+            if not same(v4, v):
+                st.violation("noslot-differs:" + name, case, v, v4)
+                break
+            prev = [name] + shown
+        st.cls("shadow_replayed", len(order))
 
     def noslot(self, name, *args):
         return self.fn[name](*args, None)
